@@ -102,34 +102,7 @@ func (s *Server) aofshrink() {
 								return false
 							}
 							// here we fill the values array with a new command
-							values = values[:0]
-							values = append(values, "set")
-							values = append(values, keys[0])
-							values = append(values, o.ID())
-							o.Fields().Scan(func(f field.Field) bool {
-								if !f.Value().IsZero() {
-									values = append(values, "field")
-									values = append(values, f.Name())
-									values = append(values, f.Value().JSON())
-								}
-								return true
-							})
-							if o.Expires() != 0 {
-								ttl := math.Floor(float64(o.Expires()-now)/float64(time.Second)*10) / 10
-								if ttl < 0.1 {
-									// always leave a little bit of ttl.
-									ttl = 0.1
-								}
-								values = append(values, "ex")
-								values = append(values, strconv.FormatFloat(ttl, 'f', -1, 64))
-							}
-							if objIsSpatial(o.Geo()) {
-								values = append(values, "object")
-								values = append(values, string(o.Geo().AppendJSON(nil)))
-							} else {
-								values = append(values, "string")
-								values = append(values, o.Geo().String())
-							}
+							values = shrinkSetValues(values[:0], keys[0], o, now)
 
 							// append the values to the aof buffer
 							aofbuf = append(aofbuf, '*')
@@ -310,4 +283,64 @@ func (s *Server) aofshrink() {
 		log.Errorf("aof shrink failed: %v", err)
 		return
 	}
+}
+
+// shrinkSetValues appends to values the SET command that recreates object o of
+// collection key: all non-zero fields, the remaining time to live and the
+// geometry or string value.
+func shrinkSetValues(values []string, key string, o *object.Object, now int64) []string {
+	values = append(values, "set")
+	values = append(values, key)
+	values = append(values, o.ID())
+	o.Fields().Scan(func(f field.Field) bool {
+		if !f.Value().IsZero() {
+			values = append(values, "field")
+			values = append(values, f.Name())
+			values = append(values, f.Value().JSON())
+		}
+		return true
+	})
+	if o.Expires() != 0 {
+		ttl := math.Floor(float64(o.Expires()-now)/float64(time.Second)*10) / 10
+		if ttl < 0.1 {
+			// always leave a little bit of ttl.
+			ttl = 0.1
+		}
+		values = append(values, "ex")
+		values = append(values, strconv.FormatFloat(ttl, 'f', -1, 64))
+	}
+	if objIsSpatial(o.Geo()) {
+		values = append(values, "object")
+		values = append(values, string(o.Geo().AppendJSON(nil)))
+	} else {
+		values = append(values, "string")
+		values = append(values, o.Geo().String())
+	}
+	return values
+}
+
+// shrinkRenameCommands returns the commands that stand for an applied
+// RENAME/RENAMENX in the log of writes made while the AOF is being rewritten.
+// The rewrite scans the keyspace in batches, so a rename replayed verbatim
+// against that snapshot can find neither name (the source was not scanned yet
+// and is gone by the time the scan gets there, the destination was scanned
+// before it existed) or find the destination with a hook that was registered
+// later. Replaying "drop both names, then set every object of the renamed
+// collection" gives the right result whatever part of the snapshot was taken
+// before or after the rename.
+func (s *Server) shrinkRenameCommands(d *commandDetails) [][]string {
+	cmds := [][]string{{"drop", d.newKey}}
+	if d.key != d.newKey {
+		cmds = append(cmds, []string{"drop", d.key})
+	}
+	col, _ := s.cols.Get(d.newKey)
+	if col == nil {
+		return cmds
+	}
+	now := time.Now().UnixNano()
+	col.Scan(false, nil, nil, func(o *object.Object) bool {
+		cmds = append(cmds, shrinkSetValues(nil, d.newKey, o, now))
+		return true
+	})
+	return cmds
 }
